@@ -435,7 +435,7 @@ reg("C03", *_pick("C04", ["c04_dispatch_wiring", "c04_e2e_finished_3", "c04_e2e_
 # ------------------------------------------------------------------------------------------------ C01
 reg("C01",
     H("c01", "c01_heartbeat_any_len_argument", c01=True, timeout=900, mem=12, bounds="all Kani default checks; symbolic input (see harness)", funcs=["heartbeat_any_len_argument"]),
-    H("c01", "c01_heap_client_hello_lists", c01=True, timeout=900, mem=12, bounds="all Kani default checks; symbolic input (see harness)", funcs=["heap_client_hello_lists"]),
+    H("c01", "c01_heap_client_hello_lists", c01=True, tier="thorough", timeout=1500, mem=12, bounds="all Kani default checks; symbolic input (see harness)", funcs=["heap_client_hello_lists"]),
     H("c01", "c01_heap_certificate_chain", c01=True, timeout=900, mem=12, bounds="all Kani default checks; symbolic input (see harness)", funcs=["heap_certificate_chain"]),
     H("c01", "c01_fmt_display_only", c01=True, timeout=900, mem=12, bounds="all Kani default checks; symbolic input (see harness)", funcs=["fmt_display_only"]),
     H("c01", "c01_debug_record_header_alert_signed", c01=True, timeout=900, mem=12, bounds="all Kani default checks; symbolic input (see harness)", funcs=["debug_record_header_alert_signed"]),
